@@ -211,6 +211,8 @@ theorem occs_res (mod : Name → Option DeclRef) (t : Tm) :
   | nil => intro rs env; rfl
   | lit n => intro rs env; rfl
   | str s => intro rs env; rfl
+  | nilE => intro rs env; rfl
+  | letN d x => intro rs env; rfl
   | seq a b iha ihb => intro rs env; rw [res_seq, occs_seq, occs_seq, iha, ihb]
   | var o x => intro rs env; rfl
   | assign o x e ih => intro rs env; rw [res_assign, occs_assign, occs_assign, ih]
@@ -253,9 +255,9 @@ example :
     namesOk exCounter = true ∧ (resolve exCounter).errors = [] ∧ mtOk (resolve exCounter).modTable = true ∧
     treeOk (resolve exCounter).tree = true ∧ (compile (resolve exCounter)).panics = [] ∧
     (compile (resolve exCounter)).funs.map (·.evs) =
-      [[.get (.capture 0), .get (.capture 1), .set (.capture 0), .get (.capture 0)],
-       [.box 1, .emptyBox, .fillBox, .closure "lambda" [.loc 2, .loc 1]],
-       [.set (.modsym 2), .funConst "mk", .set (.modsym 0), .get (.modsym 0), .set (.modsym 1), .get (.modsym 2), .get (.modsym 1)]] := by
+      [[.get (.capture 0), .get (.capture 1), .set (.capture 0), .get (.capture 0), .nil],
+       [.box 1, .emptyBox, .fillBox, .closure "lambda" [.loc 2, .loc 1], .nil],
+       [.set (.modsym 2), .funConst "mk", .set (.modsym 0), .get (.modsym 0), .set (.modsym 1), .get (.modsym 2), .get (.modsym 1), .nil]] := by
   decide
 
 /-- … the Spec interpreter prints 2 for it (kernel-checked); the machine too (evaluated: `decide`
@@ -281,9 +283,9 @@ theorem C02_for_iterable_outside_item_scope :
     namesOk exForIterable = true ∧ (resolve exForIterable).errors = [] ∧ mtOk (resolve exForIterable).modTable = true ∧
     (compile (resolve exForIterable)).panics = [] ∧
     ((compile (resolve exForIterable)).funs.map (fun f => (f.name, f.evs))).take 2 =
-      [("lambda", [.get (.capture 0)]),
-       ("f", [.emptyBox, .fillBox, .closure "lambda" [.loc 1], .get (.local 2), .get (.local 2), .set (.local 3),
-              .get (.modsym 1), .get (.local 3)])] := by
+      [("lambda", [.get (.capture 0), .nil]),
+       ("f", [.emptyBox, .fillBox, .closure "lambda" [.loc 1], .nil, .get (.local 2), .get (.local 2), .set (.local 3),
+              .get (.modsym 1), .get (.local 3), .nil])] := by
   decide
 
 /-- … the Spec interpreter prints 1 and 2 for it (the iterable is the outer list), and so does the machine -/
@@ -312,6 +314,189 @@ theorem C02_witness_init_returns_box :
   decide
 
 #guard Machine.run 100 (resolve exInitSelf) == ([], "fail:box leaked a")
+
+/-! ## C02_let_without_initialiser: a variable declared without a value is nil, in every storage class -/
+
+/-- `push_local`: the new local is appended to the innermost compiler, nothing else of the chain changes -/
+theorem pushLocal_chain (cs : CS) (d : Nat) (x : Name) (c : Comp) (rest : List Comp) (hc : cs.chain = c :: rest) :
+    ∃ sym : RSym, (cs.pushLocal d x).2 = sym.state ∧ (cs.pushLocal d x).1.modOffsets = cs.modOffsets ∧
+      (cs.pushLocal d x).1.chain = { c with locals := c.locals ++ [{ sym := sym, depth := c.scopeDepth, decl := d }] } :: rest := by
+  unfold CS.pushLocal
+  simp only [hc]
+  split <;> split <;> exact ⟨_, rfl, rfl, rfl⟩
+
+/-- **C02_let_without_initialiser (compiler paths).**  `Compiler::let_` on `let x;`, in every storage class:
+* at module scope the module symbol is assigned `nil` (`Nil; SetModSym k`);
+* in any other scope the new local `x` is pushed (slot = number of locals so far) and `Nil` is emitted for it; when the
+  resolver marked the symbol captured the `Nil` sits between the `EmptyBox` of the declaration and the `FillBox` of the
+  definition — the box is *filled with nil*, never left empty (an empty `LyBox` holds the `undefined` sentinel). -/
+theorem C02_let_without_initialiser_emits (cs : CS) (d : Nat) (x : Name) (c : Comp) (rest : List Comp)
+    (hc : cs.chain = c :: rest) :
+    (c.scopeDepth = 1 → ∀ s k, cs.modTable.get x = some s → cs.modOffset x = some k →
+        (comp (.letN d x) cs).chain = { c with evs := c.evs ++ [.nil, .set (.modsym k)] } :: rest) ∧
+    (c.scopeDepth > 1 → ∃ sym : RSym, (cs.pushLocal d x).2 = sym.state ∧
+        (comp (.letN d x) cs).chain =
+          { c with locals := c.locals ++ [{ sym := sym, depth := c.scopeDepth, decl := d }],
+                   evs := c.evs ++ (if sym.state = .localCaptured then [.emptyBox, .nil, .fillBox] else [.nil]) } :: rest) := by
+  rw [comp_letN]
+  constructor
+  · intro hd s k hs hk
+    have h1 : cs.scopeDepth = 1 := by simp [CS.scopeDepth, hc, hd]
+    simp only [CS.declareVariable, h1, if_true, hs]
+    unfold CS.defineVariable
+    simp only [CS.emit, hc, CS.scopeDepth, List.head?_cons, Option.map_some, Option.getD_some, hd, Nat.lt_irrefl, if_false]
+    split
+    · next k1 heq =>
+      change cs.modOffset x = some k1 at heq
+      rw [hk] at heq
+      cases heq
+      simp
+    · next heq =>
+      change cs.modOffset x = none at heq
+      rw [hk] at heq
+      cases heq
+  · intro hd
+    have h1 : cs.scopeDepth ≠ 1 := by simp [CS.scopeDepth, hc]; omega
+    obtain ⟨sym, hst, hmo, hch⟩ := pushLocal_chain cs d x c rest hc
+    refine ⟨sym, hst, ?_⟩
+    simp only [CS.declareVariable, h1, if_false, CS.declareLocal, hst]
+    by_cases hcap : sym.state = .localCaptured
+    · simp [hcap, CS.emit, hch, CS.defineVariable, CS.scopeDepth, hd]
+    · simp [hcap, CS.emit, hch, CS.defineVariable, CS.scopeDepth, hd]
+
+theorem ev_letN (fuel : Nat) (top : Bool) (d : Nat) (x : Name) (env : Sem.Env) (st : Sem.St) :
+    Sem.ev (fuel + 1) top (.letN d x) env st = Sem.letNStep top x env st := rfl
+
+/-- **Spec side.**  Executing `let x;` binds `x` to a cell holding `nil`; anywhere but on the module's statement spine
+(where the name is hoisted) the cell is a fresh one (`st.cells.size`), put in front of the environment: every execution
+of the declaration — every call, every iteration of a loop body — starts out with its own `nil` variable. -/
+theorem C02_spec_let_without_initialiser_is_nil (fuel : Nat) (top : Bool) (d : Nat) (x : Name) (env : Sem.Env) (st : Sem.St)
+    (hb : ∀ c, Sem.envFind env x = some c → c < st.cells.size) :
+    ∃ env' st' c, Sem.ev (fuel + 1) top (.letN d x) env st = (.norm .nil, env', st') ∧
+      Sem.envFind env' x = some c ∧ st'.read c = .nil ∧ (top = false → c = st.cells.size ∧ env' = (x, c) :: env) := by
+  rw [ev_letN]
+  unfold Sem.letNStep
+  cases top with
+  | false =>
+    refine ⟨_, _, st.cells.size, rfl, by simp [Sem.envFind], by simp [Sem.St.read], fun _ => ⟨rfl, rfl⟩⟩
+  | true =>
+    cases hf : Sem.envFind env x with
+    | none =>
+      refine ⟨_, _, st.cells.size, rfl, by simp [Sem.envFind], by simp [Sem.St.read], fun h => by cases h⟩
+    | some c =>
+      refine ⟨_, _, c, rfl, hf, ?_, fun h => by cases h⟩
+      have := hb c hf
+      simp [Sem.St.write, Sem.St.read, this]
+
+open Machine in
+/-- unfolding equations (by `rfl`) -/
+theorem mev_letN (code : Code) (fuel d : Nat) (x : Name) (fr : Frame) (st : MSt) :
+    mev code (fuel + 1) (.letN d x) fr st = letNStep code d fr st := rfl
+
+open Machine in
+/-- **C02_let_without_initialiser_is_nil.**  Whenever the machine executes `let x;` (from any frame, any heap, any code
+table), the variable holds `nil` afterwards in every storage class, whoever looks first:
+* module symbol: `GetModSym slot` reads `nil`;
+* plain local: the variable is the next stack slot and `GetLocal slot` reads `nil`;
+* boxed local: the slot holds a *fresh* box (`st.boxes.size`: no older slot or capture array refers to it), `GetBox slot`
+  in the declaring scope reads `nil`, and so does `GetCapture i` of *every* frame whose capture array holds that box at `i`
+  — which, by `C02_capture_chain_sound` and `C02_closure_shares`, is every closure that mentions `x`, at any nesting depth.
+(With `EmptyBox` alone the box would hold `undef`: `opEmptyBox` pushes `.undef`.) -/
+theorem C02_let_without_initialiser_is_nil (code : Code) (fuel d : Nat) (x : Name) (di : DeclInfo)
+    (fr fr' : Frame) (st st' : MSt) (v : MVal)
+    (hd : code.decl d = some di)
+    (h : mev code (fuel + 1) (.letN d x) fr st = (.norm v, fr', st')) :
+    (isModule di.st = true → readPath st' fr' (.modsym di.slot) = some .nil) ∧
+    (isModule di.st = false → di.st ≠ .localCaptured →
+        di.slot = fr.slots.size ∧ readPath st' fr' (.local di.slot) = some .nil) ∧
+    (isModule di.st = false → di.st = .localCaptured →
+        di.slot = fr.slots.size ∧ fr'.slots[di.slot]? = some (.box st.boxes.size) ∧ st'.boxes.size = st.boxes.size + 1 ∧
+        readPath st' fr' (.box di.slot) = some .nil ∧
+        ∀ (clo : Frame) (i : Nat), clo.caps[i]? = some st.boxes.size → readPath st' clo (.capture i) = some .nil) := by
+  rw [mev_letN] at h
+  unfold letNStep declareSlot at h
+  simp only [hd] at h
+  refine ⟨?_, ?_, ?_⟩
+  · intro hm
+    simp only [hm, if_true, defineSlot, hd, writePath] at h
+    simp only [Prod.mk.injEq] at h
+    obtain ⟨_, rfl, rfl⟩ := h
+    simp only [readPath]
+    split
+    · next hlt => simp [hlt]
+    · next hlt =>
+      have : di.slot < (st.mods ++ Array.replicate (di.slot + 1 - st.mods.size) MVal.undef).size := by
+        simp; omega
+      first
+        | exact Array.getElem?_setIfInBounds_self_of_lt this
+        | (rw [Array.getElem?_setIfInBounds_self]; simp [this])
+        | simp [Array.getElem?_setIfInBounds, this]
+  · intro hm hc
+    simp only [hm, Bool.false_eq_true, if_false, hc] at h
+    by_cases hs : di.slot = fr.slots.size
+    · simp only [hs, ne_eq, not_true_eq_false, if_false, defineSlot, hd, hm, Bool.false_eq_true, hc, Prod.mk.injEq] at h
+      obtain ⟨_, rfl, rfl⟩ := h
+      exact ⟨hs, by simp [readPath, hs]⟩
+    · simp [hs] at h
+  · intro hm hc
+    have hm' : isModule SymState.localCaptured = false := rfl
+    simp only [hc, hm', Bool.false_eq_true, if_false, if_true] at h
+    by_cases hs : di.slot = fr.slots.size
+    · simp only [hs, ne_eq, not_true_eq_false, if_false, defineSlot, hd, hc, hm', Bool.false_eq_true, if_true,
+        opEmptyBox, opFillBox, Array.back?_push, Option.map_some, Prod.mk.injEq] at h
+      obtain ⟨_, rfl, rfl⟩ := h
+      refine ⟨hs, by simp [hs], by simp, by simp [readPath, opGetBox, hs], ?_⟩
+      intro clo i hi
+      simp [readPath, opGetCapture, hi]
+    · simp [hs] at h
+
+/--
+```
+let m;                        // module symbol
+fn f() {
+  let p;                      // plain local
+  let q;                      // boxed local: captured by the lambda
+  let g = || { return q; };
+  print(p);
+  print(g());
+  return q;
+}
+print(m);
+print(f());
+```
+-/
+def exLetN : Tm :=
+  .seq (.letN 1 "m")
+  (.seq (.fnS 2 "f" [] 3 []
+          (.seq (.letN 4 "p")
+          (.seq (.letN 5 "q")
+          (.seq (.letS 6 "g" (.lam [] 7 [] (.seq (.op .ret (.seq (.var 1 "q") .nil)) .nil)))
+          (.seq (.op .exprS (.seq (.op .call (.seq (.var 2 "print") (.seq (.var 3 "p") .nil))) .nil))
+          (.seq (.op .exprS (.seq (.op .call (.seq (.var 4 "print") (.seq (.op .call (.seq (.var 5 "g") .nil)) .nil))) .nil))
+          (.seq (.op .ret (.seq (.var 6 "q") .nil)) .nil)))))))
+  (.seq (.op .exprS (.seq (.op .call (.seq (.var 7 "print") (.seq (.var 8 "m") .nil))) .nil))
+  (.seq (.op .exprS (.seq (.op .call (.seq (.var 9 "print") (.seq (.op .call (.seq (.var 10 "f") .nil)) .nil))) .nil)) .nil)))
+
+set_option maxRecDepth 2000
+
+/-- non-vacuity + the three storage classes side by side: `m` is a module symbol (`Nil; SetModSym 0`), `p` a plain local
+(`Nil`), `q` a boxed local (`EmptyBox; Nil; FillBox`, captured as `Local 2`) -/
+theorem C02_let_without_initialiser_example :
+    namesOk exLetN = true ∧ (resolve exLetN).errors = [] ∧ mtOk (resolve exLetN).modTable = true ∧
+    (compile (resolve exLetN)).panics = [] ∧
+    (compile (resolve exLetN)).funs.map (fun f => (f.name, f.evs)) =
+      [("lambda", [.get (.capture 0), .nil]),
+       ("f", [.nil, .emptyBox, .nil, .fillBox, .closure "lambda" [.loc 2], .get (.modsym 2), .get (.local 1),
+              .get (.modsym 2), .get (.local 3), .get (.box 2), .nil]),
+       ("script", [.set (.modsym 2), .nil, .set (.modsym 0), .funConst "f", .set (.modsym 1), .get (.modsym 2), .get (.modsym 0),
+              .get (.modsym 2), .get (.modsym 1), .nil])] := by
+  decide
+
+/-! … the Spec interpreter prints `nil` four times for it — the module symbol, the plain local, the boxed local read
+through the closure and read (and returned) by the declaring scope — and so does the machine (both evaluated at build time) -/
+#guard Sem.run 40 exLetN == (["nil", "nil", "nil", "nil"], "ok")
+
+#guard Machine.run 200 (resolve exLetN) == (["nil", "nil", "nil", "nil"], "ok")
 
 /-! ## stretch: the simulation -/
 
